@@ -3,6 +3,7 @@ package mem
 import (
 	"context"
 	"errors"
+	"sync"
 	"time"
 
 	"github.com/hack-pad/hackpadfs"
@@ -194,4 +195,81 @@ func VerifC18Seq() {
 		c18CheckGet(res2[k], model[k], "afterwards")
 	}
 	verifReach("store-usable")
+}
+
+// c18Sched wraps a transaction so that every call is a scheduling point of the harness.
+type c18Sched struct{ t keyvalue.Transaction }
+
+func (c c18Sched) Get(path string) keyvalue.OpID { verifSched("txn.get"); return c.t.Get(path) }
+func (c c18Sched) GetHandler(path string, h keyvalue.OpHandler) keyvalue.OpID {
+	verifSched("txn.get")
+	return c.t.GetHandler(path, h)
+}
+func (c c18Sched) Set(path string, src keyvalue.FileRecord, contents blob.Blob) keyvalue.OpID {
+	verifSched("txn.set")
+	return c.t.Set(path, src, contents)
+}
+func (c c18Sched) SetHandler(path string, src keyvalue.FileRecord, contents blob.Blob, h keyvalue.OpHandler) keyvalue.OpID {
+	verifSched("txn.set")
+	return c.t.SetHandler(path, src, contents, h)
+}
+func (c c18Sched) Commit(ctx context.Context) ([]keyvalue.OpResult, error) {
+	verifSched("txn.commit")
+	return c.t.Commit(ctx)
+}
+func (c c18Sched) Abort() error { verifSched("txn.abort"); return c.t.Abort() }
+
+func c18BeginSched(s *store, mode keyvalue.TransactionMode) keyvalue.Transaction {
+	verifSched("txn.begin")
+	t, err := s.Transaction(keyvalue.TransactionOptions{Mode: mode})
+	verifAssert(err == nil, "Transaction failed")
+	return c18Sched{t}
+}
+
+// VerifC18Conc (tier B): transactions of the in-memory store never observe each other's partial effects:
+// a writer sets a and b in one transaction, readers get a and b in one transaction.
+func VerifC18Conc() {
+	s := newStore()
+	init := c18Begin(s, false)
+	init.Set("a", c18Record(0644, 1), nil)
+	init.Set("b", c18Record(0644, 1), nil)
+	_, err := init.Commit(context.Background())
+	verifAssert(err == nil, "initial commit")
+	n := verifParam("READERS")
+	seenA, seenB := make([]byte, n), make([]byte, n)
+	var wg sync.WaitGroup
+	wg.Add(1 + n)
+	go func() {
+		defer wg.Done()
+		verifGo(1)
+		defer verifGoDone()
+		w := c18BeginSched(s, keyvalue.TransactionReadWrite)
+		w.Set("a", c18Record(0644, 2), nil)
+		w.Set("b", c18Record(0644, 2), nil)
+		_, _ = w.Commit(context.Background())
+	}()
+	for i := 0; i < n; i++ {
+		i := i
+		go func() {
+			defer wg.Done()
+			verifGo(2 + i)
+			defer verifGoDone()
+			mode := keyvalue.TransactionReadOnly
+			r := c18BeginSched(s, mode)
+			r.Get("a")
+			r.Get("b")
+			res, err := r.Commit(context.Background())
+			if err == nil && len(res) == 2 && res[0].Err == nil && res[1].Err == nil {
+				da, _ := res[0].Record.Data()
+				db, _ := res[1].Record.Data()
+				seenA[i], seenB[i] = da.Bytes()[0], db.Bytes()[0]
+			}
+		}()
+	}
+	wg.Wait()
+	verifReach("conc-done")
+	for i := 0; i < n; i++ {
+		verifAssert(seenA[i] != 0 && seenB[i] != 0, "a reader transaction failed")
+		verifAssert(seenA[i] == seenB[i], "a transaction observed another transaction's partial effects")
+	}
 }
